@@ -65,6 +65,11 @@ type c12RaceW struct {
 type c12Race struct {
 	Flush  int        `json:"flush"`
 	Writes []c12RaceW `json:"writes"`
+	// HoldLock: the writer of an arrival is not finished inside the pause; it is parked just before its
+	// commit (holding the dataset's write lock), the compactor is let go and runs into that lock, and
+	// only then the writer commits: the write lands between the compactor's preparations for the flush
+	// and the flush itself.
+	HoldLock bool `json:"holdLock,omitempty"`
 }
 
 // c12Kill: the process is killed at the NSel-th (mod number of hits) arrival.
@@ -931,9 +936,31 @@ func (r *c12Runner) runRace(rc c12Race) {
 	wrote := 0
 	var late []chan error
 	_, err := c12Compact(h, rc.Flush, func(n int) {
-		for _, w := range at[n] {
+		for i, w := range at[n] {
 			w := w
 			ch := make(chan error, 1)
+			if rc.HoldLock && i == len(at[n])-1 {
+				parked, release := make(chan struct{}), make(chan struct{})
+				var once sync.Once
+				verifhook.SetCallback("store.beforeIDCommit", func(int) { once.Do(func() { close(parked); <-release }) })
+				go func() { ch <- h.StoreBatch(c12DS, w.Ents, w.Via) }()
+				select {
+				case <-parked:
+					// the writer holds the lock; the compactor continues when this callback returns
+					go func() { time.Sleep(30 * time.Millisecond); close(release) }()
+					late = append(late, ch)
+				case e := <-ch:
+					close(release)
+					wrote++
+					if e != nil && werr == nil {
+						werr = e
+					}
+				case <-time.After(5 * time.Second):
+					close(release)
+					late = append(late, ch)
+				}
+				continue
+			}
 			go func() { ch <- h.StoreBatch(c12DS, w.Ents, w.Via) }()
 			select {
 			case e := <-ch:
@@ -970,6 +997,9 @@ func (r *c12Runner) runRace(rc c12Race) {
 	}
 	if len(late) > 0 {
 		kit.S().Class("racing-writer-blocked-until-after-flush", 1)
+	}
+	if rc.HoldLock {
+		kit.S().Class("racing-writer-holds-the-lock-while-the-compactor-arrives", 1)
 	}
 	after := r.observe(h, skip, before, true, "after compaction with racing writer")
 	if s := c12CmpCurrent(want, after); s != "" {
@@ -1181,6 +1211,31 @@ func c12GenCase(t *rapid.T) *c12Case {
 		m.apply(i, op)
 		c.Ops = append(c.Ops, op)
 	}
+	// sometimes one batch of a few hundred entities in which a source entity occurs on both sides of
+	// position 256 (the position in the batch is a two-byte part of the version key), keeping its
+	// references while a property changes
+	if rapid.IntRange(0, 5).Draw(t, "bigBatch") == 0 {
+		id := rapid.SampledFrom(srcs).Draw(t, "bigId")
+		p1 := rapid.SampledFrom([]int{3, 200, 255}).Draw(t, "bigP1")
+		p2 := rapid.SampledFrom([]int{256, 257, 260, 300}).Draw(t, "bigP2")
+		first := &kit.Ent{ID: id, Props: map[string]any{p.Keys[0]: "big1"}, Refs: map[string]any{p.Preds[0]: rapid.SampledFrom(p.IDs).Draw(t, "bigTgt")}}
+		second := first.Clone()
+		second.Props[p.Keys[0]] = "big2"
+		var es []*kit.Ent
+		for k := 0; k <= p2; k++ {
+			switch k {
+			case p1:
+				es = append(es, first)
+			case p2:
+				es = append(es, second)
+			default:
+				es = append(es, &kit.Ent{ID: fmt.Sprintf("%s:f%d", p.P[0], k), Props: map[string]any{p.Keys[0]: "f"}, Refs: map[string]any{}})
+			}
+		}
+		op := c12Op{K: "w", Via: "store", Ents: es}
+		m.apply(len(c.Ops), op)
+		c.Ops = append(c.Ops, op)
+	}
 	c.Thresholds = []int{1, 2, 3, c12Default}
 	if rapid.IntRange(0, 4).Draw(t, "async") == 0 {
 		c.Thresholds = append(c.Thresholds, c12Async)
@@ -1196,7 +1251,7 @@ func c12GenCase(t *rapid.T) *c12Case {
 		}
 	}
 	for i := 0; i < nr; i++ {
-		rc := c12Race{Flush: rapid.SampledFrom(flushes).Draw(t, "rflush")}
+		rc := c12Race{Flush: rapid.SampledFrom(flushes).Draw(t, "rflush"), HoldLock: rapid.IntRange(0, 2).Draw(t, "holdLock") == 0}
 		// the writer's view of the dataset evolves with its own writes
 		wm := &c12Model{ByID: map[string][]*c12Ver{}}
 		for id, vs := range m.ByID {
